@@ -15,6 +15,9 @@ CHECKS = {
  "C02": ("exploration", "runtime monitoring: byte-level scan of produced binaries against generated marker sets + metadata probes",
   "Every identifier, file, directory, package and module name of the generated programs is a unique random marker; the obfuscated binary is searched for each must-hide marker, the source/TMPDIR paths and the Go version; go version -m, go tool buildid and the ELF section table are probed. A marker only counts when the regular stripped binary of the same program contains it.",
   "Sensitivity is proven per marker against the regular stripped build; exceptions (exported methods, reflection, non-GOGARBLE packages) are not asserted present."),
+ "C03": ("exploration", "runtime monitoring: sha256 comparison of repeated real builds; re-obfuscation of identical source by cache entry-diff deletion as schedule/map-order sampling; hook-counted compile actions",
+  "Per (program, config) the first build in a private std-warm cache copy is the reference; the user packages are then re-obfuscated K times on byte-identical source by deleting exactly the cache entries that build created, varying -p, tree location, TMPDIR location and partial cache fill; two independent garble-cold builds and a warm build of one program are compared as well. Programs: composed multi-package programs, a literal-heavy program, control-flow programs with and without trash blocks.",
+  "The clock cannot be set; equal toolchain/garble binary/platform throughout; control flow with trash blocks is a listed known finding."),
  "C04": ("exploration", "runtime monitoring: traces of executed obfuscated programs piped through garble reverse, frame-by-frame comparison with the -trimpath build's trace",
   "Generated call-chain programs (9 frame kinds, 3 packages, panic / PrintStack / runtime.Callers terminals) are run as regular -trimpath and as obfuscated builds; the obfuscated stderr, embedded in surrounding text with LF/CRLF/no-final-newline variants, goes through `garble reverse` and every program frame (function and call-site position) must equal the regular trace; text without obfuscated tokens must pass through unchanged with exit status 1.",
   "pc offsets, goroutine ids and argument words are normalised; runtime frames are not compared; goroutine creation sites and closure indices under -literals are listed known findings."),
@@ -30,6 +33,9 @@ CHECKS = {
  "C10": ("exploration", "runtime monitoring: differential execution of a crash catalogue (regular vs -tiny) over GOTRACEBACK settings and goroutine contexts",
   "A crash-catalogue program (31 crash kinds x main/goroutine/deferred/init contexts x GOTRACEBACK settings, recover paths, position queries) is run as a regular and as a -tiny build: tiny stderr must equal the program's own OWN:-prefixed lines, stdout and exit status must be equal, recovered values unchanged, own-frame positions blank with line 1.",
   "GOTRACEBACK=crash excluded; runtime-internal frames keep their positions because the runtime is never obfuscated."),
+ "C11": ("exploration", "runtime monitoring: differential execution of generated //garble:controlflow functions with effect traces, over a random directive-parameter grid; hook-reported dispatcher counts as coverage",
+  "Programs of 8 functions from 23 body kinds, each with random directive parameters, are built regularly and with control-flow obfuscation; every call's results, ordered side-effect trace and panic value must equal the regular build's. Rejected builds are retried one function per program so the remaining functions are still judged; rejections are counted, not judged.",
+  "Bodies come from fixed templates with random constants; functions whose build garble rejects are allowed by the statement; two body classes are listed known findings with dedicated witnesses."),
  "C12": ("exploration", "runtime monitoring: name maps extracted from the garbled sources actually compiled (hook) compared across build pairs that differ in one input",
   "One composed program (with two packages of identical declarations) is built under 10 (quick) to 16 (thorough) single-input variations; the name of every package-level object, method, field and interface method in the compiled program is extracted by a lock-step walk of original and garbled sources and compared pairwise: equal where -seed must fix it, different (>=99%) where an input must change it, different between packages, equal for identical struct shapes.",
   "Go-version variation is not exercised (one toolchain family per run); GOOS/GOARCH, GOGARBLE, garble binary and cold cache variations are thorough-only."),
